@@ -241,6 +241,18 @@ Example C07_ex_text :
   http_mpub_text 100 7 (-1) [97; 10; 10; 98; 99; 10; 100; 0]%N = HErr H_BODY_TOO_BIG.
 Proof. vm_compute. repeat split; reflexivity. Qed.
 
+(* a request without Content-Length (cl = -1): a body one byte over the limit and one far over
+   it are refused, a body at the limit is published as it is *)
+Definition ex_b16 : bytes := [49; 50; 51; 52; 53; 54; 55; 56; 57; 48; 49; 50; 51; 52; 53; 54]%N.
+Example C07_ex_http_pub :
+  http_pub 16 (-1) ex_b16 = HOk [ex_b16] /\
+  http_pub 16 (-1) (ex_b16 ++ [55]%N) = HErr H_MSG_TOO_BIG /\
+  http_pub 16 (-1) (ex_b16 ++ ex_b16 ++ [55; 56]%N) = HErr H_MSG_TOO_BIG /\
+  http_effect [] (http_pub 16 (-1) (ex_b16 ++ [55; 56]%N)) = [] /\
+  http_pub 16 17 (ex_b16 ++ [55]%N) = HErr H_MSG_TOO_BIG /\
+  http_pub 16 (-1) [] = HErr H_MSG_EMPTY.
+Proof. vm_compute. repeat split; reflexivity. Qed.
+
 Import String.
 (* ---------------------------------------------------------------- the source's layout *)
 (* what Message.WriteTo / decodeMessage / SendFramedResponse / doMPUB say in their source
